@@ -142,7 +142,7 @@ var specC02Laws = Register(&Spec[Triple]{
 })
 
 func TestC02_Laws(t *testing.T) {
-	specC02Laws.Run(t, genTriple, 30000, 300000)
+	specC02Laws.Run(t, genTriple, 80000, 400000)
 }
 
 // ------------------------------------------------------------------ sorting
@@ -298,5 +298,5 @@ var specC02Sort = Register(&Spec[SortCase]{
 })
 
 func TestC02_Sort(t *testing.T) {
-	specC02Sort.Run(t, genSortCase, 4000, 40000)
+	specC02Sort.Run(t, genSortCase, 10000, 60000)
 }
